@@ -346,18 +346,24 @@ func ruleEqualityHelpers(w *World, c *Check, rule string) {
 	})
 	if hfa != nil {
 		ok := false
+		bad := false
 		for _, x := range trueExits(hfa, 0) {
-			if s := hfa.R.R(RetResults(x.Ret)[0]); hfa.M(`bytes\.Equal\((recv\.Address, a\.Address|a\.Address, recv\.Address)\)`, s) {
-				ok = true
-			} else if s != "true" {
-				ok = false
-				break
+			// every way the result can be true (a leaf of `t && bytes.Equal(…)` that is not false)
+			for _, s := range hfa.LeafTerms(RetResults(x.Ret)[0]) {
+				switch {
+				case s == "false":
+				case hfa.M(`bytes\.Equal\((recv\.Address, a\.Address|a\.Address, recv\.Address)\)`, s):
+					ok = true
+				case s != "true":
+					bad = true
+				}
 			}
 		}
+		ok = ok && !bad
 		c.Decide(ok, rule, FuncKey(hfa.Fn), "whole-address", w.Pos(hfa.Fn.Pos()), "equal addresses have byte-wise equal address fields (whole slices)", "the positive result is not bytes.Equal(h.Address, a.Address)")
 	}
 	checkGuards(w, c, rule, "types.HostAddressesContains", trueExitClass(0), []GuardSpec{
-		{Name: "an-element-equals", Desc: "true only when some element equals the address", Main: []GuardPat{TruePass(`types\.\(\*HostAddress\)\.Equal\(h\[\$i0\], a\)`)}},
+		{Name: "an-element-equals", Desc: "true only when some element equals the address", Main: []GuardPat{TruePass(`types\.\(\*HostAddress\)\.Equal\(\*?h\[\$i0\], a\)`)}},
 	})
 	checkGuards(w, c, rule, "types.HostAddressesEqual", trueExitClass(0), []GuardSpec{
 		{Name: "same-length", Desc: "lists of different length are not equal", Main: []GuardPat{EqPass(`len\(h\)`, `len\(a\)`)}},
